@@ -13,7 +13,7 @@ def run(run):
                 'columns), stratified random, wide/tall; observable: multiset of (extent, intent) over iter(lattice), len(lattice); '
                 'a case = one context; non-trivial = not 1x1 and not constant')
     d = run.driver
-    for tab, pc in lat.contexts(run, exh_quick=9, rand_quick=500, wide_quick=40, exh_thorough=12, nmax=10, mmax=10):
+    for tab, pc in lat.contexts(run, exh_quick=10, rand_quick=600, wide_quick=40, exh_thorough=14, nmax=10, mmax=10):
         if min(pc.n, pc.m) > 12:
             continue
         with guard(run, 'iter(Context.lattice)', [pc.line, 'lattice']):
